@@ -363,11 +363,20 @@ def r3(R, mods):
     R.check(ok, "C01.R3", PBP, pb.func("compute_xyz_lab").lineno, "compute_xyz_lab", "point_by_point.compute_xyz_lab == transform.compute_xyz_lab", why[:300])
     xyz = np.array([[sym("x%d" % i)] for i in range(3)], dtype=object)
     om = mk("omega*")
+    # every on/off combination of the grain translation: a component that is switched off is the constant 0 (so that shortcuts such
+    # as 'if t_x == 0 and t_y == 0 and t_z == 0' are taken exactly when they apply), the others are generic symbols
+    import itertools as _it
+    for zero in _it.chain.from_iterable(_it.combinations(("t_x", "t_y", "t_z"), n_) for n_ in range(4)):
+        q = {k: (0.0 if k in zero else sym(k)) for k in ("t_x", "t_y", "t_z")}
+        q.update({k: sym(k) for k in ("wedge", "chi")})
+        I = vn_py.Interp(mods)
+        a = I.call("transform", "compute_tth_eta_from_xyz", xyz, om, **q)
+        b = I.call("point_by_point", "compute_tth_eta_from_xyz", xyz, om, **q)
+        ok, why = vn_py.same(a, b)
+        R.check(ok, "C01.R3", PBP, pb.func("compute_tth_eta_from_xyz").lineno, "compute_tth_eta_from_xyz",
+                "point_by_point == transform (tth, eta) with %s" % (("%s = 0" % ", ".join(zero)) if zero else "a general translation"), why[:300])
+    I = vn_py.Interp(mods)
     q = {k: sym(k) for k in ("t_x", "t_y", "t_z", "wedge", "chi")}
-    a = I.call("transform", "compute_tth_eta_from_xyz", xyz, om, **q)
-    b = I.call("point_by_point", "compute_tth_eta_from_xyz", xyz, om, **q)
-    ok, why = vn_py.same(a, b)
-    R.check(ok, "C01.R3", PBP, pb.func("compute_tth_eta_from_xyz").lineno, "compute_tth_eta_from_xyz", "point_by_point == transform (tth, eta)", why[:300])
     # compute_gve: keyword pass-through
     fn = pb.func("compute_gve")
     LISTED = {"distance": "this_distance"}
